@@ -1073,6 +1073,20 @@ pub fn run_illformed_params(out: &mut Out, rng: &mut Prng) {
     cases.push(("dict a{us} with a string key".into(), dict(signature::Base::Uint32, "s", vec![(Base::String("k".into()), s("v"))]), true));
     cases.push(("dict a{us} with a u32 value".into(), dict(signature::Base::Uint32, "s", vec![(Base::Uint32(1), u(2))]), true));
     cases.push(("nested: array of arrays, inner element type differs".into(), arr("au", vec![arr("u", vec![u(1)]), arr("s", vec![s("x")])]), true));
+    // 3a. declared type vs value, the less obvious ways: a struct with MORE fields than its declared type (leading fields
+    //     matching), an EMPTY array / dict whose own element type is not the declared one
+    cases.push(("variant (us) holding (usu)".into(), pv(t("(us)"), st(vec![u(1), s("a"), u(2)])), true));
+    cases.push(("variant (us) holding (u)".into(), pv(t("(us)"), st(vec![u(1)])), true));
+    cases.push(("array a(u) with a (uu) element".into(), arr("(u)", vec![st(vec![u(1), u(2)])]), true));
+    cases.push(("array a(uu) with a (u) element".into(), arr("(uu)", vec![st(vec![u(1)])]), true));
+    cases.push(("dict a{s(u)} with a (us) value".into(), dict(signature::Base::String, "(u)", vec![(Base::String("k".into()), st(vec![u(1), s("x")]))]), true));
+    cases.push(("variant au holding an empty at".into(), pv(t("au"), arr("t", vec![])), true));
+    cases.push(("(u, variant ai holding an empty at)".into(), st(vec![u(1), pv(t("ai"), arr("t", vec![]))]), true));
+    cases.push(("array aau with an empty at element".into(), arr("au", vec![arr("t", vec![])]), true));
+    cases.push(("dict a{sau} with an empty as value".into(), dict(signature::Base::String, "au", vec![(Base::String("k".into()), arr("s", vec![]))]), true));
+    cases.push(("variant a{su} holding an empty a{us}".into(), pv(t("a{su}"), dict(signature::Base::Uint32, "s", vec![])), true));
+    cases.push(("variant au holding an empty au".into(), pv(t("au"), arr("u", vec![])), false));
+    cases.push(("variant a{su} holding an empty a{su}".into(), pv(t("a{su}"), dict(signature::Base::String, "u", vec![])), false));
     // 3b. every string-like in its borrowed and its owned Param form, bare / as a variant's value / behind a byte in a
     //     struct: legal, and (with the offsets below) at every alignment phase
     for (nm, b) in [
@@ -1095,6 +1109,17 @@ pub fn run_illformed_params(out: &mut Out, rng: &mut Prng) {
             p = good_var(p);
         }
         cases.push((format!("tower of {} variants", n), p, n > 64));
+    }
+    for n in [60usize, 61, 62, 63, 64, 65] {
+        // EMPTY containers at the limit: their own levels count although nothing is inside (a dict needs two)
+        let mut p = dict(signature::Base::String, "s", vec![]);
+        let mut q = arr("s", vec![]);
+        for _ in 0..n {
+            p = good_var(p);
+            q = good_var(q);
+        }
+        cases.push((format!("{} variants around an empty dict", n), p, n + 2 > 64));
+        cases.push((format!("{} variants around an empty array", n), q, n + 1 > 64));
     }
     for n in [10usize, 20, 21, 22, 23, 30] {
         // a{sv} rounds: 3 levels each
